@@ -97,7 +97,8 @@ func genValue(t *rapid.T, name string, ty *Type, ver int16, nullable bool, mode 
 		case k == 1:
 			n = 0
 		case k == 2 && depth == 0 && ty.Elem.Kind != KStruct:
-			n = rapid.IntRange(100, 200).Draw(t, name+"#big") // > 127 elements: 2-byte compact count
+			// > 127 elements: 2-byte compact count; > 512: beyond the decoder's preallocation
+			n = rapid.OneOf(rapid.IntRange(100, 200), rapid.IntRange(500, 1100)).Draw(t, name+"#big")
 		case depth >= 2:
 			n = rapid.IntRange(0, 2).Draw(t, name+"#n")
 		default:
